@@ -1,5 +1,5 @@
 (* Pins_C12.v — the statements of Props_C12.v, pinned: weakening a theorem there breaks this file. *)
-From FV Require Import Base CacheModel CacheProofs CacheProofs2 CacheProofs3 Props_C12.
+From FV Require Import Base CacheModel CacheProofs CacheProofs2 CacheProofs3 CacheProofs4 Props_C12.
 Open Scope N_scope.
 Check C12_entries_valid :
   forall (H : N -> bytes -> hashv) (T : tconf -> bytes -> option bytes) (h : list event) (w0 : world),
@@ -54,3 +54,14 @@ Check C12_KC4_witness :
   nofail (probe 1 0 3) /\
   cached_answer Hx Tid hRet 0 None (probe 1 0 3) = RHash (Hx 0 [97; 98; 99]) /\
   plain_answer Hx Tid hRet 0 None (probe 1 0 3) = RHash (Hx 0 [97; 98; 100]).
+
+Check C12_stamp_u64_is_code_ms :
+  forall mt, in_range mt -> signed64 (stamp_u64 mt) = code_ms mt.
+Check C12_stamp_u64_injective :
+  forall a b, in_range a -> in_range b -> (stamp_u64 a = stamp_u64 b <-> code_ms a = code_ms b).
+Check (eq_refl : stamp_u64 = fun mt => if (0 <=? mt)%Z then ((Z.quot mt 1000000) mod two64)%Z
+                                      else ((two64 - (Z.quot (- mt) 1000000) mod two64) mod two64)%Z).
+Check (eq_refl : signed64 = fun u => if (u <? two63)%Z then u else (u - two64)%Z).
+Check (eq_refl : in_range = fun mt => (- (two63 * 1000000) < mt < two63 * 1000000)%Z).
+Check (eq_refl : two64 = (2 ^ 64)%Z).
+Check (eq_refl : two63 = (2 ^ 63)%Z).
